@@ -343,6 +343,12 @@ type goField struct {
 	List bool    `json:"list"`
 	Skip bool    `json:"skip"`
 	Emb  bool    `json:"emb"`
+	// Ut: the field has no name in its tag; its NBT name is its Go name (Name, then an exported identifier). Matters
+	// only when several fields claim one name (embedding): see Dominant in NBTMap.tla.
+	Ut bool `json:"ut"`
+	// Zero: the generator gives this field its zero value (a field that the name rule hides is not encoded, so only
+	// its zero value can come back from a round trip)
+	Zero bool `json:"-"`
 }
 
 type goType struct {
@@ -436,6 +442,12 @@ func (t *goType) reflectType() reflect.Type {
 				sf.Anonymous = true
 				sf.Name = fmt.Sprintf("E%d", i)
 				sf.Tag = ""
+			} else if f.Ut {
+				sf.Name = string(bytesOf(f.Name))
+				sf.Tag = ""
+				if opts := strings.TrimPrefix(tag, sf.Name); opts != "" {
+					sf.Tag = reflect.StructTag(`nbt:` + fmt.Sprintf("%q", opts)) // options only: `nbt:",omitempty"`
+				}
 			} else {
 				sf.Tag = reflect.StructTag(`nbt:` + fmt.Sprintf("%q", tag))
 			}
@@ -649,6 +661,9 @@ func randGoType(rng *rand.Rand, depth int) *goType {
 	case 8:
 		return &goType{K: "iface"}
 	case 5, 6, 7:
+		if rng.Intn(10) == 0 {
+			return randConflictStruct(rng)
+		}
 		t := &goType{K: "struct"}
 		n := 1 + rng.Intn(4)
 		used := map[string]bool{}
@@ -820,6 +835,9 @@ func randGoValue(rng *rand.Rand, t *goType) any {
 		a := make([]any, len(t.Fs))
 		for i := range t.Fs {
 			a[i] = randGoValue(rng, t.Fs[i].Ty)
+			if t.Fs[i].Zero {
+				a[i] = zeroGoValue(t.Fs[i].Ty)
+			}
 		}
 		return a
 	}
@@ -839,6 +857,60 @@ func randGoValue(rng *rand.Rand, t *goType) any {
 		return out
 	}
 	return nil
+}
+
+// zeroGoValue: the abstract zero value of the scalar types used for fields that the name rule hides
+func zeroGoValue(t *goType) any {
+	if t.K == "str" {
+		return toAbsBytes(nil)
+	}
+	if t.K == "bool" {
+		return []any{float64(0)}
+	}
+	out := make([]any, goScalarWidth[t.K])
+	for i := range out {
+		out[i] = float64(0)
+	}
+	return out
+}
+
+// randConflictStruct: a struct in which several fields claim the NBT name "Id" through embedding - what encoding/json
+// (and typeinfo.go after it) decides: the shallowest wins; at one depth a name from a tag beats a Go field name if it is
+// the only tagged one; otherwise nobody is a member. The fields the generator expects to lose hold their zero value
+// (only that can come back); who is a member is decided by NBTMap.tla's Dominant, not here.
+func randConflictStruct(rng *rand.Rand) *goType {
+	sc := func() *goType { return &goType{K: []string{"i32", "str", "i64"}[rng.Intn(3)]} }
+	id := ints([]byte("Id"))
+	seq := 0
+	own := func() goField { // a field with a name of its own, so that no struct is empty
+		seq++
+		return goField{Name: ints([]byte(fmt.Sprintf("u%d", seq))), Ty: sc()}
+	}
+	emb := func(fs ...goField) goField {
+		return goField{Name: []int{}, Ty: &goType{K: "struct", Fs: fs}, Emb: true}
+	}
+	tagged := func(zero bool) goField { return goField{Name: id, Ty: sc(), Zero: zero} }
+	untagged := func(zero bool) goField { return goField{Name: id, Ty: sc(), Ut: true, Zero: zero} }
+	t := &goType{K: "struct"}
+	switch rng.Intn(8) {
+	case 0: // same depth, untagged then tagged: the tagged one is the member
+		t.Fs = []goField{emb(untagged(true), own()), emb(tagged(false), own())}
+	case 1: // same depth, tagged then untagged
+		t.Fs = []goField{emb(tagged(false), own()), own(), emb(untagged(true))}
+	case 2: // same depth, both names from Go fields: nobody
+		t.Fs = []goField{emb(untagged(true), own()), emb(untagged(true), own())}
+	case 3: // same depth, both names from tags: nobody
+		t.Fs = []goField{emb(tagged(true), own()), emb(tagged(true))}
+	case 4: // a field of the struct itself against an embedded one: the shallower wins whatever the tags say
+		t.Fs = []goField{untagged(false), emb(tagged(true), own())}
+	case 5:
+		t.Fs = []goField{emb(untagged(true), own()), tagged(false)}
+	case 6: // depth 2 against depth 1
+		t.Fs = []goField{emb(emb(tagged(true), own()), own()), emb(untagged(false))}
+	default: // three claimants at one depth, one of them tagged
+		t.Fs = []goField{emb(untagged(true)), emb(tagged(false), own()), emb(untagged(true), own())}
+	}
+	return t
 }
 
 type nbtHeldBytes struct{ b, copy []byte }
